@@ -22,8 +22,9 @@ non-dyadic dt with every window edge a quarter or half step away from the sample
 and one or two subject detectors carrying random schedules, an optional second source, and for every subject
 detector an identical always-on twin.  The scene is stepped with the jitted public ``forward``; after every
 step (i) at a step where ``src0`` is inactive the new E, H equal those of the same scene built without
-``src0`` advanced from the same state, and a continuous-wave ``src0`` with >= 3 active steps does change the
-fields at some active step; (ii) each subject detector's state has exactly #active rows, at an inactive step
+``src0`` advanced from the same state; in "quiet" cases (zero initial fields, pulse profile, no other source) the
+fields must differ at every active step, in "busy" cases a continuous-wave ``src0`` with >= 3 active steps must
+change the fields at some active step; (ii) each subject detector's state has exactly #active rows, at an inactive step
 it is bit-identical to the state before the step, at its i-th active step row i equals the row its always-on
 twin recorded at that step and all other rows are bit-identical to before; the twin itself (schedule "all
 steps") is checked the same way against its own history, and for raw (non-interpolated, non-reduced) field
@@ -59,7 +60,7 @@ RULE = (
     "thorough = the whole grid. runs: Hypothesis draws a closed scene of one of four 5..8 cell shapes (none/pec/pmc/periodic faces), "
     "8..20 steps, src0 of a random kind/profile with a schedule from {window, interval, fixed list, always-off, "
     "always-on}, optional src1, 1..2 detectors from {field, energy, poynting} with their own schedules + "
-    "always-on twins, in half of the cases an extra never-on detector (always-off switch or empty step list), random initial fields. Non-trivial: rule = valid schedule whose 24-step on-list contains "
+    "always-on twins, 40 % 'quiet' cases (zero initial fields, src0 a Gaussian pulse and the only excitation, so that every injection is visible and must be present at every active step) and 60 % 'busy' cases (random initial fields, mostly continuous wave, optional src1), in half of the cases an extra never-on detector (always-off switch or empty step list), random initial fields. Non-trivial: rule = valid schedule whose 24-step on-list contains "
     "both values; runs = the source's or a detector's schedule has at least one on->off and one off->on "
     "transition inside the run. Distinct = sha1 of the case JSON."
 )
@@ -76,8 +77,11 @@ ASSUMPTIONS = [
     "largest field value, because the two scenes are different XLA programs; rows a detector must not touch "
     "are compared bit for bit; a written row is compared with the twin's row at 1e-12 / 1e-6",
     "PhasorDetector keeps one accumulated record instead of one record per step and is not part of the runs "
-    "sub-check; 'a source is active but injects' is only asserted for continuous-wave profiles with >= 3 "
-    "active steps (other profiles may legitimately be zero)",
+    "sub-check; 'an active source injects' is asserted per step only for a Gaussian pulse (never zero) that is "
+    "the only excitation, and once per run for continuous-wave profiles with >= 3 active steps (a profile may "
+    "legitimately be zero at a step, e.g. the ramp at its first active step)",
+    "at a wrongly active step fdtdx evaluates the profile at time index -1, where continuous-wave and custom "
+    "profiles are exactly zero; such an injection of zero is not a violation of 'adds nothing'",
 ]
 
 WINDOW_FIELDS = ("start_time", "start_after_periods", "end_time", "end_after_periods", "on_for_time",
@@ -357,12 +361,20 @@ def runs_strategy(draw, ctx):
             "faces": faces, "background": {"eps": draw(st.sampled_from([1.0, 2.25]))}}
     kinds = draw(st.sampled_from([("dipole_e",), ("dipole_m",), ("dipole_e", "dipole_m"), ("uniform_plane",),
                                   ("gaussian_plane",)]))
-    src0 = draw(scenes.source_strategy(shape, T, faces, name="src0", switches=False, kinds=kinds))
-    if draw(st.integers(0, 2)) > 0:
+    # dipoles stay out of the first / last cell of every axis: a PEC/PMC wall there would erase the injection
+    inner = [(1, n - 1) for n in shape]
+    src0 = draw(scenes.source_strategy(shape, T, faces, name="src0", switches=False, kinds=kinds, interior=inner))
+    # "quiet": src0 is the only excitation, fields start at zero and the profile is a Gaussian pulse, which is
+    # non-zero at every time (even before t=0) -> any injection, however small, is visible relative to the fields
+    # present, at every step.  "busy": random fields, any profile (mostly continuous wave), maybe a second source.
+    mode = draw(st.sampled_from(["quiet", "quiet", "busy", "busy", "busy"]))
+    if mode == "quiet":
+        src0["profile"] = {"kind": "pulse", "width_factor": draw(st.sampled_from([3.0, 5.0, 10.0]))}
+    elif draw(st.integers(0, 2)) > 0:
         src0["profile"] = {"kind": "cw"}
     src0["switch"] = draw(schedule_strategy(T))
     sources = [src0]
-    if draw(st.booleans()):
+    if mode == "busy" and draw(st.booleans()):
         s1 = draw(scenes.source_strategy(shape, T, faces, name="src1", switches=False,
                                          kinds=("dipole_e", "dipole_m", "dipole_e", "uniform_plane")))
         s1["switch"] = draw(schedule_strategy(T))
@@ -384,8 +396,8 @@ def runs_strategy(draw, ctx):
         dets.append(d)
     spec["sources"] = sources
     spec["detectors"] = dets
-    return {"scene": spec, "field_seed": draw(st.integers(0, 2**31 - 1)),
-            "field_amp": draw(st.sampled_from([0.0, 0.02, 0.02, 1.0]))}
+    return {"scene": spec, "mode": mode, "field_seed": draw(st.integers(0, 2**31 - 1)),
+            "field_amp": 0.0 if mode == "quiet" else draw(st.sampled_from([0.02, 0.02, 1.0]))}
 
 
 def _jit_step(b, record):
@@ -469,8 +481,12 @@ def runs_body(ctx, case):
             ctx.check(np.isfinite(diff) and diff <= tol,
                       f"source src0 ({src0['type']}) is inactive at step {t} but the fields differ from the run "
                       f"without it by {diff:.3e} (relative)", observed=diff, expected=0.0, tolerance=tol)
-        elif diff > tol:
-            injected_steps += 1
+        else:
+            if diff > tol:
+                injected_steps += 1
+            if case["mode"] == "quiet":
+                ctx.check(diff > 0.0, f"source src0 ({src0['type']}, Gaussian pulse, the only excitation) is active at "
+                          f"step {t} but the fields equal those of the run without it", observed=diff, expected="> 0")
         # ---- detectors ---------------------------------------------------------------------------
         now = _np_state(new[1].detector_states)
         for d in subj:
@@ -538,7 +554,7 @@ def runs_body(ctx, case):
     ctx.classify("src=" + src0["type"], "src_sched=" + _sched_kind(src0["switch"]), "src_profile=" + prof,
                  "src_both_transitions" if src_nt else "src_simple", "det_both_transitions" if det_nt else "det_simple",
                  "two_sources" if len(spec["sources"]) > 1 else "one_source",
-                 "fields=random" if case["field_amp"] > 0 else "fields=zero",
+                 "mode=" + case["mode"],
                  "src_injected" if injected_steps else "src_never_visible",
                  "with_never_on_detector" if has_off else "no_never_on_detector")
     ctx.nontrivial(src_nt or det_nt)
@@ -571,7 +587,7 @@ SUBS = [
         rule="finite grid of schedules x all step counts 1..24 against the exact-rational window rule; "
              "over-specified schedules must raise"),
     Sub(name="runs", body=runs_body, strategy=lambda ctx: runs_strategy(ctx), quick=11, thorough=640,
-        lanes=("f64", "f32"), f32_fraction=0.25, quick_shards=1, max_seconds_quick=240.0,
+        lanes=("f64", "f32"), f32_fraction=0.4, quick_shards=1, max_seconds_quick=240.0,
         rule="small runs with scheduled sources/detectors: source-free twin scene at inactive steps, always-on "
              "twin detectors, row-by-row state model"),
 ]
